@@ -530,6 +530,7 @@ def _c12(tier, rng):
            S.parser3_ops(rng, 12 if tier == "quick" else 200, heavy, nrandom=5000 if tier == "quick" else 300000), False)
     yield ("v2 edit neighbourhood + random bytes, constructor and nil receivers",
            S.parser2_ops(rng, 8 if tier == "quick" else 150, heavy, nrandom=5000 if tier == "quick" else 300000), False)
+    yield ("decoder objects used twice", S.reuse_ops(rng, 3000 if tier == "quick" else 100000), False)
 
 
 _reg(C12Prop(
